@@ -3,7 +3,7 @@
 # verifies every <base>/<id>/<X> seed not yet verified; writes <base>/verify/<id>_<X>.log
 base="${1:-/tmp/seedout}"
 mkdir -p $base/verify
-for d in $base/C*/[A-L]; do
+for d in $base/C*/[A-N]; do
   id=$(basename $(dirname $d)); x=$(basename $d)
   out=$base/verify/${id}_${x}.log
   [ -e "$out" ] && continue
